@@ -123,7 +123,7 @@ TYPES = {0: "integer", 1: "string", 2: "record", 3: "number"}
 OPN = {
     1: {1: "push", 2: "pop", 3: "insert", 4: "remove", 5: "removevalue", 6: "removeif", 7: "resize", 8: "reserve", 9: "clear", 10: "copy", 11: "at", 12: "assign", 13: "destroy", 14: "convert", 15: "unpack", 16: "scoped-close", 17: "mnext-walk", 18: "ipairs-yields", 19: "mipairs-update"},
     3: {1: "pushfront", 2: "pushback", 3: "popfront", 4: "popback", 5: "insertbefore", 6: "erasevalue", 7: "find", 8: "clear", 9: "empty", 10: "erase(nilptr)", 11: "destroy", 12: "scoped-close", 13: "mnext-walk", 14: "pairs-yields", 15: "mpairs-update"},
-    4: {1: "set", 2: "get", 3: "peek", 4: "has", 5: "has_and_get", 6: "remove", 7: "erase", 8: "clear", 9: "reserve", 10: "rehash", 11: "erase-while-iterating", 12: "next(k)", 13: "next()", 14: "probe", 15: "mpairs-update", 16: "next-traversal", 17: "destroy", 18: "mnext-walk"},
+    4: {1: "set", 2: "get", 3: "peek", 4: "has", 5: "has_and_get", 6: "remove", 7: "erase", 8: "clear", 9: "reserve", 10: "rehash", 11: "erase-while-iterating", 12: "next(k)", 13: "next()", 14: "probe", 15: "mpairs-update", 16: "next-traversal", 17: "destroy", 18: "mnext-walk", 19: "pairs-yields"},
     6: {1: "write", 2: "writebyte", 3: "prepare/commit", 4: "rollback", 5: "resize", 6: "clear", 7: "promote", 8: "commit-over", 9: "prepare", 10: "destroy", 11: "write(integer)", 12: "write(boolean)", 13: "write(integer,bytes,boolean)"},
     7: {1: "at", 2: "sub", 3: "sub-at", 4: "sub-sub", 5: "sub-ipairs"},
 }
@@ -429,6 +429,11 @@ class OMap:
             # the traversal calls next(m, k) with every visited key: a NaN key is an invalid key for next
             if self.nan: raise Violation("InvalidKey")
             return ("v", self.pairs())
+        if op == 19:
+            ps = self.pairs()
+            u = 0
+            for k, v in ps: u = (u + pmix(k, v)) % HM
+            return ("ypairs", len(ps), u)
         if op == 18:
             # mnext(m, k) looks every visited key up: a NaN key is an invalid key
             if self.nan: raise Violation("InvalidKey")
@@ -678,7 +683,8 @@ def gen_history(rng, kind, typ, nsteps, maxsize, big=False):
                 elif r < 0.62 and live: emit(12, alias(rng.choice(live)))
                 elif r < 0.65: emit(13)
                 elif r < 0.70 and not o.nan: emit(16)
-                elif r < 0.72 and not o.nan: emit(18)
+                elif r < 0.715 and not o.nan: emit(18)
+                elif r < 0.75: emit(19)
                 elif r < 0.78:
                     lo = min(univ[:8]) ; emit(14, lo, lo + rng.randrange(0, 12))
                 elif r < 0.82: emit(15, rng.randrange(1, 5))
@@ -958,6 +964,11 @@ def check_step(kind, o, op, a, b, c, line, dump):
                 return "unparsable iteration %r" % ret
             if got != exp[1]:
                 return "iteration visited %s, the map's bindings are %s (each binding exactly once expected)" % (got, exp[1])
+        elif exp[0] == "ypairs":
+            m = re.match(r"y(\d+)#(\d+)#(\d+)$", ret)
+            if not m: return "unparsable yielded-pairs result %r" % ret
+            if int(m.group(1)) != exp[1] or int(m.group(3)) != exp[2]:
+                return "pairs(m) yielded %s bindings with sum %s, the map has %d bindings with sum %d (each binding exactly once expected)" % (m.group(1), m.group(3), exp[1], exp[2])
         elif exp[0] == "next" and not ret.startswith("*"):
             if ret != "end":
                 try:
@@ -1510,7 +1521,7 @@ def correspond(ctx):
 
 UNPROVED = [
     "model = code is not a theorem: lib/{vector,sequence,list,hashmap,span,stringbuilder,hash}.nelua are mirrored by hand in coq/C12/Model.v (one Gallina function per source function); the tie is the scraped constants (Gen.v) plus the step-by-step differential runs of the compiled library against the extracted model and the Python oracle, also under ASan/UBSan",
-    "lib/iterators.nelua is modelled as stateless iterator triples driven by a generic for loop (Model.v: for_in/for_do/ip_next, vec_ipairs, span_ipairs, seq_pairs, dl_pairs, hm_for_pairs, vec_mipairs_map, dl_mpairs_map, hm_for_mpairs); PROVED: ipairs over vector and span, pairs over list and hashmap visit exactly the abstract contents in order, the vector reference of mipairs aliases the element and the whole `$x = f($x)` loop is the element-wise update, the list/hashmap references of mnext are the node whose value next yields. ALSO PROVED since: pairs over sequence, the whole `$x = f($x)` loops through mpairs of list and hashmap (= hm_mapvals); `for` bodies that change the container's shape are outside the model. Tie to the code: the stepping policy of impl_ipairs_next/impl_mipairs_next and the initial controls are scraped (Gen.v IP_*; the proofs use them), the (index, element) pairs yielded by ipairs (vector, sub-span) and pairs (sequence, list) are compared with the extracted iterator model's (count + position-sensitive checksum, full list for spans), the update loops through mipairs (vector) and mpairs (list, hashmap) run against the extracted model loops; for the hashmap the yielded bindings are compared through the dumps (node order) and the model statement only says `map snd l = hm_abs m` (controls uncharacterised). Also exercised: ipairs/mipairs/pairs/mpairs, mnext walks over vector, sequence and list (reference identity checked), next over hashmap, select; mnext over hashmap (reference identity checked). select is a definitional model (C12_select_returns_suffix); its defect (one value returned) was repaired in /repo 6bf5a38 and the witness is replayed on every run",
+    "lib/iterators.nelua is modelled as stateless iterator triples driven by a generic for loop (Model.v: for_in/for_do/ip_next, vec_ipairs, span_ipairs, seq_pairs, dl_pairs, hm_for_pairs, vec_mipairs_map, dl_mpairs_map, hm_for_mpairs); PROVED: ipairs over vector and span, pairs over list and hashmap visit exactly the abstract contents in order, the vector reference of mipairs aliases the element and the whole `$x = f($x)` loop is the element-wise update, the list/hashmap references of mnext are the node whose value next yields. ALSO PROVED since: pairs over sequence, the whole `$x = f($x)` loops through mpairs of list and hashmap (= hm_mapvals); `for` bodies that change the container's shape are outside the model. Tie to the code: the stepping policy of impl_ipairs_next/impl_mipairs_next and the initial controls are scraped (Gen.v IP_*; the proofs use them), the (index, element) pairs yielded by ipairs (vector, sub-span) and pairs (sequence, list) are compared with the extracted iterator model's (count + position-sensitive checksum, full list for spans), the update loops through mipairs (vector) and mpairs (list, hashmap) run against the extracted model loops; for the hashmap the (key, value) pairs pairs(m) yields are compared with the extracted model's node order (op 19: count + position-sensitive checksum; the oracle checks count and an order-insensitive sum) while the model statement only says `map snd l = hm_abs m` (controls uncharacterised). Also exercised: ipairs/mipairs/pairs/mpairs, mnext walks over vector, sequence and list (reference identity checked), next over hashmap, select; mnext over hashmap (reference identity checked). select is a definitional model (C12_select_returns_suffix); its defect (one value returned) was repaired in /repo 6bf5a38 and the witness is replayed on every run",
     "hashmap: the model runs with a hash on value tokens while the implementation hashes the real values; this is covered by C12_hashmap_is_flat_map / C12_hashmap_hash_independent_exact (every hash that respects == gives identical results, order, capacity and bucket count) TOGETHER WITH the coherence of the real hashes, which is proved only for integer, boolean, float64 (+-0, NaN), record{integer,number}, arrays/spans/pointers/unions as functions of the compared bytes; strings (== on the bytes, hash.long over the bytes) and float32 are covered by C12_hash_coherent_string_float32; other record shapes are not covered",
     "hashmap: the distinguished Overflow outcome (roundpow2 wrapped in usize; the implementation would continue with a zero-sized table) is excluded by theorem only below 2^50 bindings/requested counts (C12_hashmap_no_overflow_below_2p50); at or above that the model says Overflow and nothing is claimed about the code",
     "hashmap next(m,k)/__next is not an operation of the step relation hop, deliberately: it is the only hashmap operation with a failing precondition (absent key), and the step / history / flat-map theorems have the two-outcome shape `Overflow or the specification's result`; admitting it would add a third outcome to every one of those statements. It is covered on its own by C12_hashmap_next_is_flat_and_refines_map (equal to the hash-free flat next; absent key stopped; returned bindings are bindings of the map) and C12_hashmap_next_follows_iteration_order, so histories that interleave next with other operations are covered only operation by operation",
